@@ -354,6 +354,11 @@ def run_check(prop_id, tier, seed_value, replay=None):
             json.dump(ev, f, indent=1, default=str)
         os.replace(tmp, os.path.join(EVIDENCE_DIR, "%s.json" % prop_id))
 
+    crash_labels = {k: v for k, v in acc.labels.items() if k.startswith("crash:")}
+    if crash_labels and not getattr(mod, "CRASH_IS_VIOLATION", False):
+        # not this property's subject (C16 owns "runs to completion"), but never silent
+        print("NOTE: %d case(s) raised inside the library before/while the property was observed: %s" % (
+            sum(crash_labels.values()), ", ".join("%s x%d" % kv for kv in sorted(crash_labels.items()))))
     for ln in lines:
         print(ln)
     print("%s %s seed=%s: cases=%d evaluations=%d nontrivial=%d outcomes=%s excluded=%s violations=%d known=%d wall=%.1fs" % (
